@@ -6,6 +6,8 @@ import (
 	"bytes"
 	"crypto/ecdsa"
 	"crypto/ed25519"
+	"crypto/sha256"
+	"crypto/sha512"
 	"encoding/asn1"
 	"encoding/json"
 	"fmt"
@@ -206,6 +208,98 @@ func tamperings(pool *KeyPool, k *Key, good string, tamper string) (out []struct
 			w := len(sig) / 2
 			der, _ := asn1.Marshal(rs{new(big.Int).SetBytes(sig[:w]), new(big.Int).SetBytes(sig[w:])})
 			add("DER SEQUENCE{r, s}", join(hdr, payload, der), k.JWK)
+		}
+	case "signature_plus_order":
+		if k.KT == "ed" {
+			// S + L, little endian (S < 2^253, L < 2^253: the sum fits the 32 bytes)
+			l, _ := new(big.Int).SetString("7237005577332262213973186563042994240857116359379907606001950938285454250989", 10)
+			le := func(b []byte) []byte {
+				o := make([]byte, len(b))
+				for i := range b {
+					o[len(b)-1-i] = b[i]
+				}
+
+				return o
+			}
+			sum := new(big.Int).Add(new(big.Int).SetBytes(le(sig[32:])), l)
+
+			if sum.BitLen() <= 256 {
+				add("S + L", join(hdr, payload, append(append([]byte(nil), sig[:32]...), le(sum.FillBytes(make([]byte, 32)))...)), k.JWK)
+			}
+
+			break
+		}
+
+		{
+			c := curveOf(k.KT)
+			n := c.Params().N
+			w := len(sig) / 2
+			fits := func(v *big.Int) bool { return v.BitLen() <= 8*w }
+			put := func(r, s2 *big.Int) []byte {
+				return append(r.FillBytes(make([]byte, w)), s2.FillBytes(make([]byte, w))...)
+			}
+			r0, s0 := new(big.Int).SetBytes(sig[:w]), new(big.Int).SetBytes(sig[w:])
+
+			if v := new(big.Int).Add(s0, n); fits(v) {
+				add("(r, s + n) of the genuine signature", join(hdr, payload, put(r0, v)), k.JWK)
+			}
+
+			if v := new(big.Int).Add(r0, n); fits(v) {
+				add("(r + n, s) of the genuine signature", join(hdr, payload, put(v, s0)), k.JWK)
+			}
+
+			// a key chosen so that (R, 1) signs this very input: d = (1*k - z) / R mod n
+			input := []byte(parts[0] + "." + parts[1])
+
+			var z *big.Int
+
+			switch k.KT {
+			case "p384":
+				d := sha512.Sum384(input)
+				z = new(big.Int).SetBytes(d[:])
+			case "p521":
+				d := sha512.Sum512(input)
+				z = new(big.Int).SetBytes(d[:])
+				// (512 bits: shorter than the order, used as it is)
+			default:
+				d := sha256.Sum256(input)
+				z = new(big.Int).SetBytes(d[:])
+			}
+
+			for _, small := range []int64{1, 2, 77} {
+				kk := new(big.Int).SetBytes(seedBytes(int64(small), "plus-order/"+k.Name, w))
+				kk.Mod(kk, new(big.Int).Sub(n, big.NewInt(1))).Add(kk, big.NewInt(1))
+				rx, _ := c.ScalarBaseMult(kk.Bytes())
+				r := new(big.Int).Mod(rx, n)
+
+				if r.Sign() == 0 {
+					continue
+				}
+
+				sv := big.NewInt(small)
+				d := new(big.Int).Mul(sv, kk)
+				d.Sub(d, z).Mod(d, n)
+				d.Mul(d, new(big.Int).ModInverse(r, n)).Mod(d, n)
+
+				if d.Sign() == 0 {
+					continue
+				}
+
+				px, py := c.ScalarBaseMult(d.Bytes())
+				pub := &ecdsa.PublicKey{Curve: c, X: px, Y: py}
+
+				j, err := pubkey.GetPublicKeyJWK(pub)
+				if err != nil {
+					continue
+				}
+
+				// (the genuine pair first: it must verify, or the construction is wrong - reported as such)
+				add(fmt.Sprintf("control: (R, %d) made for a chosen key", small), join(hdr, payload, put(r, sv)), j)
+
+				if v := new(big.Int).Add(sv, n); fits(v) {
+					add(fmt.Sprintf("(R, %d + n) for a chosen key", small), join(hdr, payload, put(r, v)), j)
+				}
+			}
 		}
 	case "signature_empty":
 		add("empty signature segment", parts[0]+"."+parts[1]+".", k.JWK)
@@ -663,8 +757,13 @@ func jwsReplay(args []string) {
 						res, terr = jwsutil.VerifyJWS(tm.jws, tm.key)
 					}()
 
-					if (terr == nil) != jc.Expected.Ok {
-						fail("verify-verdict", fmt.Sprintf("payload %d, %s: %v", pi, tm.desc, terr), map[string]interface{}{"verifies": jc.Expected.Ok},
+					wantOk := jc.Expected.Ok
+					if strings.HasPrefix(tm.desc, "control:") {
+						wantOk = true // (a genuine signature of the chosen key: the counterpart of the changed one that follows)
+					}
+
+					if (terr == nil) != wantOk {
+						fail("verify-verdict", fmt.Sprintf("payload %d, %s: %v", pi, tm.desc, terr), map[string]interface{}{"verifies": wantOk},
 							map[string]interface{}{"verifies": terr == nil}, map[string]interface{}{"jws": tm.jws, "key": tm.key})
 						return
 					}
